@@ -108,8 +108,15 @@ def crosscheck_memory(seed=0, n_inputs=24):
         "add_resource": lambda q: {"resource": Dyn("resource"), "name": Dyn("name"), "size": Dyn("size"), "addr": Dyn("addr"),
                                    "alignment": Dyn("alignment")},
     }
+    from .engine import Unsupported
+    unsupported = []
     for fname, mk in specs.items():
-        ex, self_, h, args, outs = setup(fname, mk)
+        try:
+            ex, self_, h, args, outs = setup(fname, mk)
+        except Unsupported as e_:
+            # the function is outside the engine's subset on this tree: nothing to cross-check (the proof side reports it undecided)
+            unsupported.append(f"{fname}: {e_}")
+            continue
         for _ in range(n_inputs):
             m = random_map(rng, R)
             if fname == "align_to":
